@@ -213,10 +213,12 @@ const (
 
 var idClassNames = []string{"oldest", "middle", "newest", "evicted", "never-issued", "unset", "non-canonical numeral", "before-write-index"}
 
-func (w *replayerWorld) doReplay() {
+func (w *replayerWorld) doReplay() { w.doReplayBiased([]int{3, 4, 4, 2, 2, 1, 2}) }
+
+func (w *replayerWorld) doReplayBiased(classWeights []int) {
 	ch := w.ch
 	live := w.live()
-	class := ch.Weighted([]int{3, 4, 4, 2, 2, 1, 2}, "presented id class")
+	class := ch.Weighted(classWeights, "presented id class")
 	var id sse.EventID
 	pos := -1 // index in live of the presented ID, if buffered
 	desc := ""
@@ -527,10 +529,13 @@ func runReplayerWorld(rc *RunCtx) *Outcome {
 	if !w.finite {
 		maxOps = 60
 	}
+	// swarm: per-run operation mix (balanced, put-heavy so that the buffer grows, collection-heavy)
+	profiles := [][]int{{10, 6, 2, 5, 2}, {30, 4, 2, 3, 3}, {10, 6, 8, 8, 4}}
+	profile := ch.Weighted([]int{3, 2, 2}, "op profile")
 	for i := 0; i < maxOps && ch.Chance(num, den, "more ops") && len(o.Violations) == 0; i++ {
-		weights := []int{10, 6, 0, 0}
+		weights := []int{10, 6, 0, 0, 0}
 		if !w.finite {
-			weights = []int{10, 6, 2, 5}
+			weights = profiles[profile]
 		}
 		switch ch.Weighted(weights, "op") {
 		case 0:
@@ -543,9 +548,48 @@ func runReplayerWorld(rc *RunCtx) *Outcome {
 			w.gcHi = w.now
 			w.checkRetention("explicit GC")
 			o.fault("explicit GC")
+		case 4:
+			// macro: expire a chosen prefix, collect, and look at the result at once
+			// (faults placed right after a state change, not uniformly)
+			var liveIdx []int
+			for k, e := range w.all {
+				if !w.expired(e, w.now) {
+					liveIdx = append(liveIdx, k)
+				}
+			}
+			if len(liveIdx) > 0 {
+				e := w.all[liveIdx[ch.Intn(len(liveIdx), "boundary entry")]]
+				w.now = e.put + w.ttl
+				w.op("advance to the expiry of %s -> %v", e.tag, w.now)
+				o.fault("clock: jump to an expiry boundary")
+			}
+			w.vr.GC()
+			w.op("GC()@%v", w.now)
+			w.gcHi = w.now
+			w.checkRetention("explicit GC")
+			o.fault("explicit GC")
+			if len(o.Violations) == 0 {
+				w.doReplayBiased([]int{3, 2, 6, 0, 1, 0, 0})
+			}
 		case 3:
 			adv := []time.Duration{0, w.ttl / 10, w.ttl / 3, w.ttl - 1, w.ttl, w.ttl + 1, w.ttl * 5}
 			d := adv[ch.Intn(len(adv), "advance")]
+			// boundary-directed: jump to (just before) the expiry of a chosen live entry,
+			// so that exactly a chosen prefix of the buffer expires
+			var liveIdx []int
+			for k, e := range w.all {
+				if !w.expired(e, w.now) {
+					liveIdx = append(liveIdx, k)
+				}
+			}
+			if len(liveIdx) > 0 && ch.Chance(1, 2, "advance to an expiry boundary") {
+				e := w.all[liveIdx[ch.Intn(len(liveIdx), "boundary entry")]]
+				d = e.put + w.ttl - w.now
+				if ch.Chance(1, 3, "just before") {
+					d--
+				}
+				o.fault("clock: jump to an expiry boundary")
+			}
 			w.now += d
 			w.op("advance %v -> %v", d, w.now)
 			switch {
